@@ -4,6 +4,11 @@ CONSTANTS
   NB <- RealNB
   L <- RealL
   SNB <- RealNB
+  W = 51
+  NL = 5
+  CF = 19
+  WORD = 64
+  BIAS = 2
 SPECIFICATION Spec
 INVARIANT Final
 POSTCONDITION AllConsumed
